@@ -219,11 +219,16 @@ for pid in ("C07", "C08", "C09", "C10", "C16", "C17", "C18", "C19", "C12", "C13"
 for pid in ("C01", "C02", "C03", "C04", "C05", "C06", "C11", "C14", "C15", "C20"):
     th = P[pid].setdefault("thorough", {})
     th["deep_bounds"] = False
-    th["cross_solver"] = "z3-new"
+    # the harnesses with time.Time values make z3 5.1 run away on single queries (23 minutes observed,
+    # soft limit ignored), so the properties that include them are not re-decided with it
+    if pid in ("C01", "C02", "C20"):
+        th.pop("cross_solver", None)
+    else:
+        th["cross_solver"] = "z3-new"
     th.pop("runs", None)
     if "max_paths" in P[pid].get("common", {}):
         th["max_paths"] = P[pid]["common"]["max_paths"]
-    P[pid]["thorough_note"] = "thorough tier = the quick tier's bounds, more paths replayed natively, every query re-decided by z3 5.1 and the verdicts diffed; the deeper bounds written into the harnesses (verifThorough) did not finish within 50 minutes per property on this machine and are not registered"
+    P[pid]["thorough_note"] = "thorough tier = the quick tier's bounds, more paths replayed natively and (except C01, C02, C20, whose time-valued harnesses make z3 5.1 run away) every query re-decided by z3 5.1 and the verdicts diffed; the deeper bounds written into the harnesses (verifThorough) did not finish within 50 minutes per property on this machine and are not registered"
 
 json.dump(P, open(os.path.join(V, "props.json"), "w"), indent=1)
 print("properties configured:", sorted(P))
